@@ -216,10 +216,21 @@ def _is_derivation_append(st) -> bool:
 
 
 def _constraints_read_filtered(inputs) -> bool:
+    """every read site of self.constraints is the iterable of an isinstance(x, Exclude) filter -- filter(lambda x: isinstance(x,
+    Exclude), self.constraints) or [x for x in self.constraints if isinstance(x, Exclude)]"""
+    def is_exclude_test(t, var) -> bool:
+        return isinstance(t, ast.Call) and dotted(t.func) == "isinstance" and len(t.args) == 2 and dotted(t.args[0]) == var and dotted(t.args[1]) == "Exclude"
     for f, n in inputs.get("constraints", []):
-        # every read site must be the iterable of filter(lambda c: isinstance(c, Exclude), self.constraints)
-        src = ast.unparse(f.node)
-        if "isinstance(c, Exclude), self.constraints" not in src.replace("\n", " "):
+        ok = False
+        for node in ast.walk(f.node):
+            if isinstance(node, ast.Call) and dotted(node.func) == "filter" and len(node.args) == 2 and node.args[1] is n and isinstance(node.args[0], ast.Lambda) \
+                    and len(node.args[0].args.args) == 1 and is_exclude_test(node.args[0].body, node.args[0].args.args[0].arg):
+                ok = True
+            if isinstance(node, (ast.ListComp, ast.GeneratorExp, ast.SetComp)):
+                for g in node.generators:
+                    if g.iter is n and isinstance(g.target, ast.Name) and any(is_exclude_test(c, g.target.id) for c in g.ifs):
+                        ok = True
+        if not ok:
             return False
     return True
 
